@@ -734,6 +734,8 @@ type ExecResult struct {
 	// Remaining is the gas the output leaves, Forwarded the gas handed to output transfers
 	Remaining uint64
 	Forwarded uint64
+	// Digest is the sender's storage after the call plus the data of every output transfer
+	Digest string
 }
 
 // Exec runs one priced execution of the given kind on fresh accounts against l's container.
@@ -746,6 +748,15 @@ func ExecTok(l *Lite, kind string, tok string) ExecResult { return ExecGas(l, ki
 
 // ExecGas is ExecTok with the given gas.
 func ExecGas(l *Lite, kind string, tok string, gas uint64) ExecResult {
+	return execGas(l, kind, tok, gas, false)
+}
+
+// ExecSized runs kind on the held token with its usual arguments (big = false) or with arguments of
+// other sizes / quantities (big = true): two such executions overlapping on the same function object
+// must each give what they give alone.
+func ExecSized(l *Lite, kind string, big bool) ExecResult { return execGas(l, kind, "S", Gas, big) }
+
+func execGas(l *Lite, kind string, tok string, gas uint64, big2 bool) ExecResult {
 	snd := newLiteAccount(addr('a', 0))
 	dst := addr('c', 1)
 	nft := &esdt.ESDigitalToken{Type: 1, Value: big.NewInt(3), TokenMetaData: &esdt.MetaData{Nonce: 1, Name: []byte("name"), Creator: snd.addr, Hash: []byte("hash"), URIs: [][]byte{[]byte("uri")}, Attributes: []byte("attr")}}
@@ -811,6 +822,28 @@ func ExecGas(l *Lite, kind string, tok string, gas uint64) ExecResult {
 	case "ESDTNFTAddURI":
 		args = [][]byte{[]byte(tok), {1}, []byte("another-uri")}
 	}
+	if big2 {
+		long := []byte("a-much-longer-argument-than-the-usual-one-0123456789")
+		switch fn {
+		case "ESDTNFTUpdateAttributes":
+			args[2] = long
+		case "ESDTNFTAddURI":
+			args = append(args, long)
+		case "ESDTNFTCreate":
+			args[5] = long
+		case "SaveKeyValue":
+			args[3] = long
+		case "ESDTLocalBurn", "ESDTLocalMint", "ESDTTransfer":
+			args[1] = []byte{3}
+		case "ESDTNFTAddQuantity":
+			args[2] = []byte{7}
+		case "ESDTNFTBurn", "ESDTNFTTransfer":
+			args[2] = []byte{2}
+		case "MultiESDTNFTTransfer":
+			args[4] = []byte{2}
+			args[7] = []byte{3}
+		}
+	}
 	f, err := l.Container.Get(fn)
 	if err != nil {
 		return ExecResult{Kind: kind, Err: err.Error()}
@@ -851,6 +884,23 @@ func ExecGas(l *Lite, kind string, tok string, gas uint64) ExecResult {
 	}
 	res.Consumed = gas - out.GasRemaining - fwd
 	res.Remaining, res.Forwarded = out.GasRemaining, fwd
+	var keys []string
+	for k := range snd.storage {
+		keys = append(keys, k)
+	}
+	sort.Strings(keys)
+	var dg strings.Builder
+	for _, k := range keys {
+		fmt.Fprintf(&dg, "%x=%x;", k, snd.storage[k])
+	}
+	var outs []string
+	for _, oa := range out.OutputAccounts {
+		for _, t := range oa.OutputTransfers {
+			outs = append(outs, fmt.Sprintf("%x>%s", oa.Address, t.Data))
+		}
+	}
+	sort.Strings(outs)
+	res.Digest = dg.String() + "|" + strings.Join(outs, ",") + "|" + fmt.Sprintf("%x", out.ReturnData)
 	return res
 }
 
